@@ -328,7 +328,7 @@ var c8par bool
 var c8fg *value.FunctionGenerator
 var c8fn = map[string]funcGen.Func[value.Value]{}
 
-func curGid() uint64 {
+func c08CurGid() uint64 {
 	var buf [64]byte
 	n := runtime.Stack(buf[:], false)
 	f := strings.Fields(string(buf[:n]))
@@ -351,7 +351,7 @@ func c8Tick(nargs int, ret int) funcGen.Function[value.Value] {
 					ev.Args = append(ev.Args, -999999)
 				}
 			}
-			g := curGid()
+			g := c08CurGid()
 			c8mu.Lock()
 			c8log = append(c8log, ev)
 			if g != c8gid {
@@ -403,7 +403,7 @@ func c8Eval(exp string, limit time.Duration) c8Obs {
 	t0 := time.Now()
 	go func() {
 		c8mu.Lock()
-		c8gid = curGid()
+		c8gid = c08CurGid()
 		c8mu.Unlock()
 		var o c8Obs
 		func() {
@@ -1121,7 +1121,7 @@ func (r *c8Run) judge(j *c8Job) {
 		}
 		what = fmt.Sprintf("outcome %s, but the first %d source elements already decide %s", obs.Short(), need, want)
 	default:
-		for _, i := range sortedIntKeys(counts) {
+		for _, i := range c08SortedIntKeys(counts) {
 			slack := 1
 			if obs.Parallel {
 				slack = 1 + 3*runtime.NumCPU() // feeder, workers and the reorder buffer of iterator.initParallel
@@ -1174,7 +1174,7 @@ func callCounts(c c8Calls) map[int]int {
 	return m
 }
 
-func sortedIntKeys(m map[int]int) []int {
+func c08SortedIntKeys(m map[int]int) []int {
 	var ks []int
 	for k := range m {
 		ks = append(ks, k)
